@@ -322,6 +322,11 @@ def search(ctx, budget):
             msg = oc.stale_check([tuple(p) for p in spec["pts"]], i, [
                 ("regularSampleTValue(%d)" % m, lambda g: tuple(g.regularSampleTValue(m))), ("lengthAtTime(0.5)", lambda g: g.lengthAtTime(0.5)),
                 ("sample(%d)" % m, lambda g: g.sample(m)), ("length", lambda g: g.length)])
+        if msg is None and spec["kind"] == "path" and L < 1500:
+            m = min(n, 10)
+            msg = oc.path_stale_check([[tuple(p) for p in sg] for sg in spec["segs"]], spec.get("closed", False), i, [
+                ("regularSampleTValue(%d)" % m, lambda g: tuple(g.regularSampleTValue(m))), ("lengthAtTime(0.3)", lambda g: g.lengthAtTime(0.3)),
+                ("pointAtTime(0.7)", lambda g: g.pointAtTime(0.7)), ("length", lambda g: g.length)])
         if msg == "skip":
             skipped += 1
             continue
